@@ -14,6 +14,7 @@ var checks = map[string]func(*lib.Run){
 	"C03": lib.CheckC03,
 	"C11": lib.CheckC11,
 	"C16": lib.CheckC16,
+	"C17": lib.CheckC17,
 }
 
 func main() {
